@@ -32,7 +32,6 @@ pub fn extract_field_content(input: &str, tag: &str) -> Option<(String, usize)> 
         // 1. "\n-}" - end of block with closing brace
         // 2. "\n-\n" - trailer separator
         // 3. "\n-" at end of string - simple block end
-        // 4. "-}" - end marker without newline
         if let Some(end_pos) = remaining.find("\n-}") {
             (remaining[..end_pos].to_string(), true)
         } else if let Some(end_pos) = remaining.find("\n-\n") {
@@ -47,8 +46,6 @@ pub fn extract_field_content(input: &str, tag: &str) -> Option<(String, usize)> 
                 // Take all remaining content
                 (remaining.to_string(), false)
             }
-        } else if let Some(end_pos) = remaining.find("-}") {
-            (remaining[..end_pos].to_string(), false)
         } else {
             // Take all remaining content
             (remaining.to_string(), false)
